@@ -562,6 +562,65 @@ def synth_constitution(rng, nfrag=14):
     return s.text()
 
 
+RADICAL_ATTR = {0: None, 1: "Doublet", 2: "Singlet"}
+
+
+def synth_charge_grid(rng, thorough: bool):
+    """CONTRACTED LABELS WITH CHARGE AND SPIN: a skeleton of three atoms carrying formal charge `o` (on one atom, or split
+    over two) and radical `r`, bonded to a place-holder whose nested fragment carries net charge `q` and radical `s` —
+    the full grid of sign combinations, including every case where the total is exactly 0 although neither part is
+    neutral (zwitterions across the label boundary), and nested-in-nested labels in the thorough tier."""
+    s = Synth(rng)
+    charges = [-2, -1, 0, 1, 2]
+    spins = [(0, 0), (1, 0), (0, 1), (1, 1), (2, 1)] if not thorough else [(a, b) for a in (0, 1, 2) for b in (0, 1, 2)]
+    k = 0
+    for q in charges:
+        for o in charges:
+            for (sn, r) in spins:
+                cx, cy = 70.0 + 120.0 * (k % 6), 70.0 + 70.0 * (k // 6)
+                k += 1
+                ids = [s.nid() for _ in range(3)]
+                ph, ep, b1, b2 = s.nid(), s.nid(), s.nid(), s.nid()
+                split = o != 0 and rng.chance(1, 2)
+                outer = []
+                for i, nid in enumerate(ids):
+                    a = {"id": nid, "p": f"{cx + 14.4 * i:.2f} {cy + (7.2 if i % 2 else 0):.2f}"}
+                    if i == 1:
+                        ch = (o - (1 if o > 0 else -1)) if split else o
+                        a["Charge"] = str(ch) if ch else None
+                        a["Element"] = rng.choice([None, "7", "8", "15"])
+                    if i == 2 and split:
+                        a["Charge"] = "1" if o > 0 else "-1"
+                    if i == 2:
+                        a["Radical"] = RADICAL_ATTR[r]
+                    outer.append(a)
+                deep = ""
+                inner_nodes = [{"id": ep, "p": f"{cx - 11:.2f} {cy + 2:.2f}", "NodeType": "ExternalConnectionPoint", "ExternalConnectionNum": "1"},
+                               {"id": b1, "p": f"{cx - 28.8:.2f} {cy + 1:.2f}", "Charge": str(q) if q else None, "Element": rng.choice([None, "7", "8"])},
+                               {"id": b2, "p": f"{cx - 43.2:.2f} {cy - 5:.2f}", "Radical": RADICAL_ATTR[sn]}]
+                inner_bonds = [{"id": s.nid(), "B": ep, "E": b1}, {"id": s.nid(), "B": b1, "E": b2}]
+                if thorough and rng.chance(1, 3):
+                    # a label inside the label, carrying a charge of its own that the middle level compensates
+                    ph2, ep2, c1 = s.nid(), s.nid(), s.nid()
+                    dq = rng.choice([-1, 1])
+                    sub2 = (f'<fragment id="{s.nid()}"><n {xml_attrs({"id": ep2, "p": f"{cx - 54:.2f} {cy - 4:.2f}", "NodeType": "ExternalConnectionPoint"})}></n>'
+                            f'<n {xml_attrs({"id": c1, "p": f"{cx - 70:.2f} {cy - 9:.2f}", "Charge": str(dq)})}></n>'
+                            f'<b {xml_attrs({"id": s.nid(), "B": ep2, "E": c1})}/></fragment>')
+                    inner_nodes[1]["Charge"] = str(q - dq) if q - dq else None
+                    deep = f'<n {xml_attrs({"id": ph2, "p": f"{cx - 57.6:.2f} {cy - 5:.2f}", "NodeType": "Fragment"})}>{sub2}</n>'
+                    inner_bonds.append({"id": s.nid(), "B": b2, "E": ph2})
+                sub = (f'<fragment id="{s.nid()}">' + "".join(f"<n {xml_attrs(a)}></n>" for a in inner_nodes) + deep +
+                       "".join(f"<b {xml_attrs(b)}/>" for b in inner_bonds) + "</fragment>")
+                body = ("".join(f"<n {xml_attrs(a)}></n>" for a in outer) +
+                        f'<n {xml_attrs({"id": ph, "p": f"{cx - 14.4:.2f} {cy:.2f}", "NodeType": rng.choice(["Fragment", "Nickname"])})}>{sub}</n>' +
+                        f'<b {xml_attrs({"id": s.nid(), "B": ids[0], "E": ids[1]})}/><b {xml_attrs({"id": s.nid(), "B": ids[1], "E": ids[2]})}/>'
+                        f'<b {xml_attrs({"id": s.nid(), "B": ids[0], "E": ph})}/>')
+                fid = s.nid()
+                s.items.append(f'<fragment id="{fid}" BoundingBox="{cx - 14.4:.2f} {cy - 5:.2f} {cx + 28.8:.2f} {cy + 7.2:.2f}">{body}</fragment>')
+                s.add_label(f"q{q}o{o}s{sn}r{r}", cx, cy + 25)
+    return s.text()
+
+
 def synth_labels(rng):
     """label placement: free labels above/below, far labels (5-nearest cut), grouped labels not nearest-above"""
     s = Synth(rng)
@@ -615,6 +674,11 @@ def run(ctx):
         p = work / f"synth_const_{i}.cdxml"
         p.write_text(t)
         sources.append((f"synthetic-constitution-{i}", p, t))
+    for i in range(1 if ctx.quick() else 3):
+        t = synth_charge_grid(rng, not ctx.quick())
+        p = work / f"synth_charge_grid_{i}.cdxml"
+        p.write_text(t)
+        sources.append((f"synthetic-charge-grid-{i}", p, t))
     for i in range(nsyn[1]):
         t = synth_labels(rng)
         p = work / f"synth_labels_{i}.cdxml"
@@ -644,6 +708,15 @@ def run(ctx):
                 smp = L.variant_mirror(sb[0], work / f"{stem}_restereo_mirror.cdxml")
                 sm = check_file(ctx, smp, source, tag + ":mirror", smp.read_text())
                 mirror_check(ctx, source + ":" + tag, sb, sm, text=sp.read_text())
+        # contracted labels of the drawing given a net charge that the skeleton compensates (and the other sign
+        # combinations): total charge / multiplicity must follow the drawn formal charges and radicals
+        if not source.startswith("synthetic-charge-grid"):
+            combos = [(1, -1, False), (-1, 1, True)] if ctx.quick() else [(1, -1, False), (-1, 1, True), (1, 1, False), (-2, 1, True), (2, -2, False)]
+            for (q, o, rad) in combos:
+                cp = L.variant_charge_split(d0, work / f"{stem}_chargesplit.cdxml", q, o, rad)
+                if cp is None:
+                    break
+                check_file(ctx, cp, source, f"charge-split:{q},{o},{int(rad)}", cp.read_text(), session=False)
         # the same drawing written in another order (nodes shuffled, bonds written from the other end): same
         # constitution and same handedness node by node — every stereo-bearing drawing in both tiers
         if has_stereo or not source.startswith("repo:") or not ctx.quick():
